@@ -115,6 +115,12 @@ def bases(seed):
         ("pathkey", cirq.FrozenCircuit(cirq.X(a) ** g, M(a, key=K("m", ("0",))),
                                         CO(cirq.FrozenCircuit((cirq.Y(b) ** g2).with_classical_controls("m"), M(b, key="k")), repetitions=2, use_repetition_ids=True))),
         ("loopbody", cirq.FrozenCircuit(cirq.X(a) ** g, M(a, key="m"), (cirq.Y(b) ** g2).with_classical_controls("m"))),
+        # the classically controlled operation is itself a sub-circuit that reads a key of the enclosing scope
+        ("cco_sub_ctrl", cirq.FrozenCircuit(cirq.Moment([cirq.X(a) ** g, cirq.X(c)]), cirq.Moment([M(a, key="m"), M(c, key="k")]),
+                                             cirq.Moment([CO(cirq.FrozenCircuit((cirq.Y(b) ** g2).with_classical_controls("m"))).with_classical_controls("k")]))),
+        ("if_sub_ctrl", cirq.FrozenCircuit(cirq.Moment([cirq.X(a) ** g, cirq.X(c)]), cirq.Moment([M(a, key="m"), M(c, key="k")]),
+                                            cirq.Moment([cirq.If("k", CO(cirq.FrozenCircuit((cirq.Y(b) ** g2).with_classical_controls("m"), cirq.Z(b) ** g3),
+                                                                         repetitions=2))]))),
         # sibling sub-circuits whose scope paths coincide: the second must NOT bind to the keys of the first
         ("pathkey_pp", cirq.FrozenCircuit(cirq.Moment([cirq.X(a) ** g]), cirq.Moment([M(a, key=K("m", ("p",)))]),
                                            cirq.Moment([CO(cirq.FrozenCircuit((cirq.Y(b) ** g2).with_classical_controls("m"), M(b, key="k")), parent_path=("p",))]))),
@@ -127,7 +133,7 @@ def bases(seed):
 
 
 BASE_NAMES = ["u1", "u1gp", "u1par", "u2", "u2par", "meas", "meas_ctrl", "ctrl_outer", "shadow", "twice", "qutrit", "nested",
-              "sympy2", "indexed", "bitmask", "if_op", "cco_sub", "pathkey", "loopbody", "pathkey_pp", "siblings"]
+              "sympy2", "indexed", "bitmask", "if_op", "cco_sub", "pathkey", "loopbody", "cco_sub_ctrl", "if_sub_ctrl", "pathkey_pp", "siblings"]
 BI = {n: i for i, n in enumerate(BASE_NAMES)}
 
 REPS = [1, 2, 0, 3, -1, -2, "r", 2.0000001, 2.0]
@@ -776,7 +782,7 @@ def product_cases(tier):
             pps = [0, 1]
             prs = [0, 1, 2, 4] if has_par else [0]
             uts = ([0, 1] if name not in ("loopbody", "sympy2") else [0, 1, 2, 3]) if has_keys else [0]
-            if name in ("twice", "indexed", "bitmask", "if_op", "cco_sub", "pathkey", "qutrit", "nested", "pathkey_pp", "siblings"):
+            if name in ("twice", "indexed", "bitmask", "if_op", "cco_sub", "pathkey", "qutrit", "nested", "pathkey_pp", "siblings", "cco_sub_ctrl", "if_sub_ctrl"):
                 reps, uses, idss, qms = [0, 1, 6], [1, 2], [0], [0, 1 if not has_t else 3]
         else:
             reps = list(range(len(REPS)))
@@ -838,7 +844,7 @@ def nested_cases(tier):
                      for rp in ([R1, R2] + ([RM2] if unit else [])) for u in ((1, 2) if not unit else (2,)) for p in ((0, 2) if not unit else (0,))
                      for km in ((0, 1, 2) if has_keys else (0,)) for qm in ((0, swap) if unit else (0,)) for pa in ((0, 5) if has_par else (0,))]
             tmpls = [0, 1, 2] if has_keys else [0]
-            if name in ("indexed", "bitmask", "if_op", "cco_sub", "qutrit", "twice", "pathkey", "sympy2", "pathkey_pp", "siblings"):
+            if name in ("indexed", "bitmask", "if_op", "cco_sub", "qutrit", "twice", "pathkey", "sympy2", "pathkey_pp", "siblings", "cco_sub_ctrl", "if_sub_ctrl"):
                 inner = [o for o in inner if o[3] == 0 and o[4] == 0]
                 outer = [o for o in outer if o[4] in (0, 1)]
         else:
@@ -1408,7 +1414,7 @@ def simulate_case(circ, items, qs, simkind, label):
 
 
 BASE_MEAS = {"meas": 1, "meas_ctrl": 2, "ctrl_outer": 0, "shadow": 1, "twice": 2, "qutrit": 1, "nested": 2, "sympy2": 2, "indexed": 2,
-             "bitmask": 1, "if_op": 1, "cco_sub": 1, "pathkey": 3, "loopbody": 1, "pathkey_pp": 2, "siblings": 4, "u1": 0, "u1gp": 0, "u1par": 0, "u2": 0, "u2par": 0}
+             "bitmask": 1, "if_op": 1, "cco_sub": 1, "pathkey": 3, "loopbody": 1, "pathkey_pp": 2, "siblings": 4, "cco_sub_ctrl": 2, "if_sub_ctrl": 2, "u1": 0, "u1gp": 0, "u1par": 0, "u2": 0, "u2par": 0}
 
 
 def draws_of(node) -> int:
@@ -1496,7 +1502,7 @@ def sim_cases(tier):
     out = []
     R1, R2, R0, R3, RS = 0, 1, 2, 3, 6
     meas_bases = ["meas", "meas_ctrl", "ctrl_outer", "shadow", "twice", "qutrit", "nested", "sympy2", "indexed", "bitmask", "if_op", "cco_sub", "pathkey",
-                  "pathkey_pp", "siblings"]
+                  "pathkey_pp", "siblings", "cco_sub_ctrl", "if_sub_ctrl"]
     for name in meas_bases:
         bi = BI[name]
         has_t = name == "qutrit"
